@@ -1,21 +1,102 @@
 package main
 
 import (
+	"flag"
 	"fmt"
-	"golang.org/x/tools/go/packages"
-	"golang.org/x/tools/go/ssa"
-	"golang.org/x/tools/go/ssa/ssautil"
-	"golang.org/x/tools/go/callgraph/vta"
-	"golang.org/x/tools/go/callgraph/cha"
+	"os"
+	"runtime/debug"
+	"strconv"
+	"strings"
 )
 
+type ruleFn func(c *Check, p *Prog)
+
+var rules = map[string]ruleFn{
+	"C07": ruleC07,
+}
+
+func verifDir() string {
+	if v := os.Getenv("VERIF_HOME"); v != "" {
+		return v
+	}
+	return "/verif"
+}
+
 func main() {
-	cfg := &packages.Config{Mode: packages.LoadAllSyntax, Dir: "/repo", Tests: false}
-	pkgs, err := packages.Load(cfg, "./...")
-	if err != nil { panic(err) }
-	prog, spkgs := ssautil.AllPackages(pkgs, ssa.InstantiateGenerics)
-	prog.Build()
-	fmt.Println(len(pkgs), len(spkgs))
-	cg := vta.CallGraph(ssautil.AllFunctions(prog), cha.CallGraph(prog))
-	fmt.Println(len(cg.Nodes))
+	dump := flag.String("dump", "", "pkg:Func to dump the summary of (debug)")
+	repo := flag.String("repo", "/repo", "repository root")
+	prop := flag.String("prop", "", "property id")
+	tier := flag.String("tier", "quick", "quick|thorough")
+	only := flag.String("only", "", "report only this obligation key")
+	replay := flag.String("replay", "", "replay file written by an earlier run")
+	flag.Parse()
+	if v := os.Getenv("VERIF_TIER"); v != "" && *tier == "" {
+		*tier = v
+	}
+	seed := int64(1)
+	if v := os.Getenv("VERIF_SEED"); v != "" {
+		if n, err := strconv.ParseInt(v, 10, 64); err == nil {
+			seed = n
+		}
+	}
+	if *dump != "" {
+		p, err := LoadProg(*repo, []string{"./..."}, wantPkgs, nil)
+		if err != nil {
+			fmt.Println("load error:", err)
+			os.Exit(2)
+		}
+		parts := strings.SplitN(*dump, ":", 2)
+		pkg := modPath
+		if parts[0] != "" {
+			pkg = modPath + "/" + parts[0]
+		}
+		fn := p.Func(pkg, parts[1])
+		if fn == nil {
+			fmt.Println("no such function")
+			os.Exit(2)
+		}
+		x := NewExt(p, NewStore(), wfConfig())
+		s := x.Summarize(fn, nil, nil)
+		fmt.Print(s.Dump(p))
+		return
+	}
+	if *replay != "" {
+		pr, key := readReplay(*replay)
+		if pr == "" {
+			fmt.Println("cannot read replay file", *replay)
+			os.Exit(2)
+		}
+		*prop, *only = pr, key
+	}
+	rf := rules[*prop]
+	if rf == nil {
+		fmt.Printf("unknown property %q\n", *prop)
+		os.Exit(2)
+	}
+	c := NewCheck(*prop, *tier, seed)
+	code := runCheck(c, rf, *repo, *only)
+	os.Exit(code)
+}
+
+func runCheck(c *Check, rf ruleFn, repo, only string) (code int) {
+	defer func() {
+		if r := recover(); r != nil {
+			c.Fail("R-CHECKER-PANIC", c.Prop, "-", "checker panicked: %v\n%s", r, trunc(string(debug.Stack()), 1500))
+			code = c.Finish(verifDir(), only)
+			if code == 0 {
+				code = 1
+			}
+		}
+	}()
+	p, err := LoadProg(repo, []string{"./..."}, wantPkgs, nil)
+	if err != nil {
+		c.Explanation = "the repository could not be loaded and type-checked; nothing was decided"
+		c.Fail("R-LOAD", "repo", "-", "cannot analyse %s: %v", repo, err)
+		return c.Finish(verifDir(), only)
+	}
+	c.P = p
+	c.Extra["packages_analysed"] = len(p.Pkgs)
+	c.Extra["functions_with_bodies"] = p.NFunc
+	rf(c, p)
+	return c.Finish(verifDir(), only)
 }
